@@ -438,10 +438,38 @@ def _const_pixels(n, v):
     return [v] * n
 
 
+def all_bytes_pixels(n, depth=16):
+    """pixels whose packed bytes run through all 256 byte values (0x00, 0x01, … 0xFF, again and again)"""
+    per = 2 if depth == 16 else 4
+    bits = 4 if depth == 16 else 2
+    out = []
+    k = 0
+    while len(out) < n:
+        b = k % 256
+        out += [(b >> (bits * (per - 1 - j))) & (depth - 1) for j in range(per)]
+        k += 1
+    return out[:n]
+
+
 def extremes(r):
     """Structured extremes of the valid-file space (kind "valid"): field maxima, boundary crossings,
     constant and alternating images, copies at column 0 across page boundaries, maximal/split runs."""
     out = []
+    # every format that packs pixels into bytes: an uncompressed picture whose data runs through all 256 byte
+    # values (a decoder that treats one value specially - 0x00 as "empty", 0xFF as a marker - shows here)
+    global rand_pixels
+    saved = rand_pixels
+    rand_pixels = lambda r_, n, depth=16: all_bytes_pixels(n, depth)    # noqa: E731
+    try:
+        out.append(build_pix(r, side=32))
+        out.append(build_hrs(r))
+        out.append(build_mge(r, compressed=False, rgb=True))
+        out.append(build_mge(r, compressed=False, rgb=False))
+        out.append(build_cm3(r, pages=1, pattern=False, mode=0))
+        for t in (0, 1, 3):
+            out.append(build_vef(r, t=t, squashed=False))
+    finally:
+        rand_pixels = saved
     # MAX: length fields at and above 0x8000 / 0xFF00, widest and narrowest legal widths
     for cols, rows in ((256, 1024), (512, 1023), (8, 4096), (2040, 1)):
         nbytes = cols // 8 * rows
@@ -530,6 +558,40 @@ def extremes(r):
             row = by[k * orig_len:(k + 1) * orig_len]
             rec = bytes([128 + orig_len, row[0]]) if k % 2 == 0 else bytes([orig_len]) + row
             body += bytes([len(rec)]) + rec
+        data = bytes([128, t]) + bytes(pal) + bytes(body)
+        out.append({"fmt": "vef", "kind": "valid", "req": req_simple("vef", data), "data": data, "pal": pal,
+                    "pixels": px, "width": width, "squashed": True, "veftype": veftype,
+                    "expect_bitmap": bytes(pal[p] for p in px)})
+    # VEF: records of every length around the raw row length (orig_len - 5 .. orig_len + 2): noisy rows with one
+    # planted run of 2..7 equal bytes at the start / inside / at the end, coded literal + repeat + literal
+    for t in (0, 1, 3):
+        width, orig_len, veftype = VEF_TYPES[t]
+        depth = 16 if veftype == 8 else 4
+        ppb = 2 if veftype == 8 else 4
+        pal = rand_pal(r)
+        rows, body = [], bytearray()
+        for k in range(400):
+            row = bytearray(r.randrange(256) for _ in range(orig_len))
+            for j in range(1, orig_len):          # no accidental runs
+                if row[j] == row[j - 1]:
+                    row[j] = (row[j] + 1) % 256
+            L = 2 + k % 6
+            pos = [0, 1, 10, orig_len - L, orig_len // 2][(k // 6) % 5]
+            v = r.randrange(256)
+            row[pos:pos + L] = bytes([v]) * L
+            rec = bytearray()
+            if pos > 0:
+                rec += bytes([pos]) + row[:pos]
+            rec += bytes([128 + L, v])
+            if pos + L < orig_len:
+                rec += bytes([orig_len - pos - L]) + row[pos + L:]
+            rows.append(bytes(row))
+            body += bytes([len(rec)]) + rec
+        by = b"".join(rows)
+        if veftype == 8:
+            px = [n for b in by for n in (b >> 4, b & 15)]
+        else:
+            px = [n for b in by for n in (b >> 6, (b >> 4) & 3, (b >> 2) & 3, b & 3)]
         data = bytes([128, t]) + bytes(pal) + bytes(body)
         out.append({"fmt": "vef", "kind": "valid", "req": req_simple("vef", data), "data": data, "pal": pal,
                     "pixels": px, "width": width, "squashed": True, "veftype": veftype,
